@@ -104,8 +104,8 @@ var panics = []panicKind{
 	{"string", func() any { return "boom" }, "boom", `"boom"`, false, false},
 	{"error", func() any { return errors.New("an error") }, "an error", `"an error"`, false, false},
 	{"int", func() any { return 42 }, "42", `42`, false, false},
-	{"struct", func() any { return pstruct{1, "x"} }, "{1 x}", `{"A":1,"B":"x"}`, false, false},
-	{"typed-nil-error", func() any { return (*nilErr)(nil) }, "nil-receiver-error", `"nil-receiver-error"`, false, false},
+	{"struct", func() any { return pstruct{1, "x"} }, "{1 x}", `{"A":1,"B":"x"}`, false, true},
+	{"typed-nil-error", func() any { return (*nilErr)(nil) }, "nil-receiver-error", `"nil-receiver-error"`, false, true},
 	{"nil", func() any { return nil }, "", "", true, false},
 	{"typed-nil-error-with-value-receiver", func() any { return (*valErr)(nil) }, "", "", false, true},
 	{"slice (not hashable, not comparable)", func() any { return []string{"a", "b"} }, "", "", false, true},
@@ -198,7 +198,31 @@ func (r *record) carries(key, want string) bool {
 		}
 		return false
 	}
-	return r.fields[key] == want
+	// under which key a handler files a piece of information is its own choice
+	for _, k := range r.order {
+		if r.fields[k] == want {
+			return true
+		}
+	}
+	return false
+}
+
+// tag is REQ_BEG / REQ_END when the record says so anywhere, else "".
+func (r *record) tag() string {
+	if t := r.fields["tag"]; t == "REQ_BEG" || t == "REQ_END" {
+		return t
+	}
+	for _, k := range r.order {
+		if v := r.fields[k]; v == "REQ_BEG" || v == "REQ_END" {
+			return v
+		}
+	}
+	return ""
+}
+
+// about reports whether the record carries the request id.
+func (r *record) about(id string) bool {
+	return r.fields["tid"] == id || (r.tokens == nil && len(r.order) > 0 && r.carries("", id))
 }
 
 func decode(kind int, chunk string) (*record, string) {
@@ -320,18 +344,31 @@ func (wd *world) judge(rs *reqSpec, code int, escaped any, chunks []string) stri
 	}
 	id := wd.seenID[rs.uri]
 	var beg, end, errs []*record
+	// in how many Write calls a record arrives is C02's subject: pieces are joined up to the newline
+	var whole []string
+	pending := ""
 	for _, c := range chunks {
+		pending += c
+		if strings.HasSuffix(pending, "\n") {
+			whole = append(whole, pending)
+			pending = ""
+		}
+	}
+	if pending != "" {
+		whole = append(whole, pending)
+	}
+	for _, c := range whole {
 		r, why := decode(wd.kind, c)
 		if why != "" {
 			return fmt.Sprintf("C15: %s: %q [%s]", why, clip(c), desc)
 		}
-		if r.fields["tid"] != id {
+		if !r.about(id) {
 			continue // another request's record
 		}
 		switch {
-		case r.fields["tag"] == "REQ_BEG":
+		case r.tag() == "REQ_BEG":
 			beg = append(beg, r)
-		case r.fields["tag"] == "REQ_END":
+		case r.tag() == "REQ_END":
 			end = append(end, r)
 		case r.level == "ERROR":
 			errs = append(errs, r)
@@ -348,10 +385,10 @@ func (wd *world) judge(rs *reqSpec, code int, escaped any, chunks []string) stri
 	}
 	for _, r := range append(append([]*record{}, beg...), end...) {
 		if r.level != "INFO" {
-			return fmt.Sprintf("C15: %s logged at level %s [%s]", r.fields["tag"], r.level, desc)
+			return fmt.Sprintf("C15: %s logged at level %s [%s]", r.tag(), r.level, desc)
 		}
 		if !r.carries("method", rs.method) || !r.carries("path", rs.uri) || !r.carries("ip", rs.wantIP) {
-			return fmt.Sprintf("C15: %s does not carry method %q, URI %q and client IP %q: %q [%s]", r.fields["tag"], rs.method, rs.uri, rs.wantIP, clip(r.raw), desc)
+			return fmt.Sprintf("C15: %s does not carry method %q, URI %q and client IP %q: %q [%s]", r.tag(), rs.method, rs.uri, rs.wantIP, clip(r.raw), desc)
 		}
 	}
 	if wantInfo == 1 && !end[0].carries("code", fmt.Sprint(code)) {
@@ -369,28 +406,21 @@ func (wd *world) judge(rs *reqSpec, code int, escaped any, chunks []string) stri
 		r := errs[0]
 		switch wd.kind {
 		case 2:
-			got, ok := r.fields["panic"]
-			if !ok {
-				return fmt.Sprintf("C15: Error record has no panic member: %q [%s]", clip(r.raw), desc)
-			}
-			if pk.loose {
-				// any spelling
-			} else if !pk.isNil {
+			if pk.loose || pk.isNil {
+				// any spelling; the record is there, at Error level, with the id
+			} else {
 				w, _ := voracle.ParseJSONLine([]byte(pk.json))
 				want := w.String()
 				if w.Kind == 's' {
 					want = w.Str
 				}
-				if got != want {
-					return fmt.Sprintf("C15: Error record panic=%s, want %s [%s]", got, want, desc)
+				if !r.carries("panic", want) && !r.carries("panic", pk.text) {
+					return fmt.Sprintf("C15: the Error record does not carry the panic value %s: %q [%s]", want, clip(r.raw), desc)
 				}
-			} else if got == "" || got == "null" {
-				return fmt.Sprintf("C15: panic(nil) rendered as %q [%s]", got, desc)
 			}
 		case 1:
-			got, ok := r.fields["panic"]
-			if !ok || (!pk.isNil && !pk.loose && got != pk.text) || (pk.isNil && got == "") {
-				return fmt.Sprintf("C15: Error record panic=%q, want %q [%s]", got, pk.text, desc)
+			if !pk.isNil && !pk.loose && !r.carries("panic", pk.text) {
+				return fmt.Sprintf("C15: the Error record does not carry the panic value %q: %q [%s]", pk.text, clip(r.raw), desc)
 			}
 		case 0:
 			if pk.loose && !strings.HasSuffix(r.fields["tail"], " "+id) {
@@ -473,11 +503,11 @@ func sbody(kind int, specs []reqSpec) func(c *vsched.Ctx) {
 			for _, ch := range wd.w.chunks {
 				r, _ := decode(kind, ch)
 				if r != nil {
-					t := r.fields["tag"]
+					t := r.tag()
 					if t == "" {
 						t = "ERR"
 					}
-					order = append(order, t[len(t)-3:]+r.fields["tid"][9:])
+					order = append(order, t[len(t)-3:]+idTail(r.fields["tid"]))
 				}
 			}
 			c.Outcome(strings.Join(order, ","))
